@@ -955,6 +955,11 @@ def ruleTimeDuration(
     # heute eine Übernachtung
 
     # To make an interval we should at least have a date
+    try:
+        end_ts = t.dt + _duration_to_relativedelta(dur)
+    except (OverflowError, ValueError):
+        # the end would lie outside the range of representable dates
+        return None
     if dur.unit in (
         DurationUnit.DAYS,
         DurationUnit.NIGHTS,
